@@ -28,7 +28,7 @@ var solvers = []solverCfg{
 }
 
 // background axioms that depend on which symbols occur
-func (e *Engine) backgroundAxioms(ts []*Term, mode Mode) []*Term {
+func (e *Engine) backgroundAxioms(ts []*Term, mode Mode, typed []*Term) []*Term {
 	var out []*Term
 	ar := &Arith{Mode: mode}
 	I := ar.I()
@@ -46,7 +46,7 @@ func (e *Engine) backgroundAxioms(ts []*Term, mode Mode) []*Term {
 	ground := func(t *Term) bool {
 		g := true
 		Walk(t, map[*Term]bool{}, func(x *Term) {
-			if x.Op == "var" && (strings.Contains(x.Name, "!q") || strings.HasPrefix(x.Name, "k!") || strings.HasPrefix(x.Name, "r!")) {
+			if x.Op == "var" && strings.HasPrefix(x.Name, "$b_") {
 				g = false
 			}
 		})
@@ -76,9 +76,25 @@ func (e *Engine) backgroundAxioms(ts []*Term, mode Mode) []*Term {
 		out = append(out, And(IntCmp("<=", ConstI(IntSort, 0), a), IntCmp("<", a, Const(IntSort, bigPow2(62)))))
 	}
 	if len(seenApp["elemref"]) > 0 {
-		r, i := Var("r!er", I), Var("i!er", I)
+		r, i := Var("$b_rer", I), Var("$b_ier", I)
 		app := App("elemref", I, r, i)
 		out = append(out, Forall([]*Term{r, i}, And(Eq(App("elemref_reg", I, app), r), Eq(App("elemref_idx", I, app), i)), app))
+	}
+	// int mode: bytes read from byte arrays are in 0..255 (typing of memory contents)
+	if mode == ModeInt && os.Getenv("GOVC_NOBYTES") == "" {
+		seenSel := map[*Term]bool{}
+		nb := 0
+		for _, t := range typed {
+			Walk(t, seenSel, func(x *Term) {
+				if x.Op == "select" && x.S == IntSort && nb < 4000 && isByteArrayTerm(x.Args[0]) && ground(x) {
+					if !dedup[x.Key()] {
+						dedup[x.Key()] = true
+						nb++
+						out = append(out, And(IntCmp("<=", z, x), IntCmp("<=", x, ConstI(IntSort, 255))))
+					}
+				}
+			})
+		}
 	}
 	// sub-object references are injective
 	var subNames []string
@@ -89,9 +105,52 @@ func (e *Engine) backgroundAxioms(ts []*Term, mode Mode) []*Term {
 	}
 	sort.Strings(subNames)
 	for _, n := range subNames {
-		r := Var("r!sub", I)
+		r := Var("$b_rsub", I)
 		app := App(n, I, r)
 		out = append(out, Forall([]*Term{r}, Eq(App(n+"_inv", I, app), r), app))
+	}
+	// symbolic products: linear facts about multiplication, instantiated on the ground applications
+	if ms := seenApp["umul"]; len(ms) > 0 {
+		one := ConstI(IntSort, 1)
+		var gms []*Term
+		for _, a := range ms {
+			if ground(a) && !dedup[a.Key()] {
+				dedup[a.Key()] = true
+				gms = append(gms, a)
+			}
+		}
+		for _, a := range gms {
+			x, y := a.Args[0], a.Args[1]
+			out = append(out,
+				Implies(Eq(x, z), Eq(a, z)), Implies(Eq(y, z), Eq(a, z)),
+				Implies(Eq(x, one), Eq(a, y)), Implies(Eq(y, one), Eq(a, x)),
+				Implies(And(IntCmp(">=", x, z), IntCmp(">=", y, z)), IntCmp(">=", a, z)),
+				Implies(And(IntCmp(">=", x, one), IntCmp(">=", y, one)), And(IntCmp(">=", a, x), IntCmp(">=", a, y))))
+			// small factor: |y| <= 16 gives a linear bound (sizes of fixed-size Thrift types)
+			for _, p := range [][2]*Term{{x, y}, {y, x}} {
+				big, small := p[0], p[1]
+				out = append(out, Implies(And(IntCmp(">=", big, z), IntCmp(">=", small, z), IntCmp("<=", small, ConstI(IntSort, 16))),
+					IntCmp("<=", a, IntOp("*", big, ConstI(IntSort, 16)))))
+			}
+		}
+		// step and monotonicity between applications sharing a factor
+		for i, a := range gms {
+			for j, b := range gms {
+				if i == j {
+					continue
+				}
+				if i < j {
+					// commutativity
+					out = append(out, Implies(And(Eq(a.Args[0], b.Args[1]), Eq(a.Args[1], b.Args[0])), Eq(a, b)))
+				}
+				for _, pa := range [][2]*Term{{a.Args[0], a.Args[1]}, {a.Args[1], a.Args[0]}} {
+					for _, pb := range [][2]*Term{{b.Args[0], b.Args[1]}, {b.Args[1], b.Args[0]}} {
+						// a = xa * f, b = xb * f with the same factor f
+						out = append(out, Implies(And(Eq(pa[1], pb[1]), Eq(pa[0], IntOp("+", pb[0], one))), Eq(a, IntOp("+", b, pa[1]))))
+					}
+				}
+			}
+		}
 	}
 	for _, nm := range []string{"urem", "udiv"} {
 		for _, a := range seenApp[nm] {
@@ -142,18 +201,40 @@ func (e *Engine) buildSMT(ob *Obligation) string {
 	defer func() { e.ar.Mode = saved }()
 	var asserts []*Term
 	seenA := map[*Term]bool{}
+	seenH := map[uint64][]*Term{}
 	for _, a := range ob.Assume {
-		if !seenA[a] {
-			seenA[a] = true
-			asserts = append(asserts, a)
+		if seenA[a] {
+			continue
 		}
+		seenA[a] = true
+		dup := false
+		for _, o := range seenH[a.hash()] {
+			if sameTerm(o, a) {
+				dup = true
+				break
+			}
+		}
+		if dup {
+			continue
+		}
+		seenH[a.hash()] = append(seenH[a.hash()], a)
+		asserts = append(asserts, a)
 	}
 	goal := Not(ob.Goal)
 	asserts = relevant(asserts, goal)
 	all := append(append([]*Term{}, asserts...), goal)
-	unf := e.unfoldSpecs(all, e.fuel)
+	// lemma instances (hints) are not roots for unfolding: their spec-function applications
+	// are unfolded only if they also occur in the rest of the query
+	var roots []*Term
+	for _, a := range all {
+		if !e.hintTerms[a] {
+			roots = append(roots, a)
+		}
+	}
+	unf := e.unfoldSpecs(roots, e.fuel)
+	typed := append([]*Term{}, all...) // byte typing facts: for the query proper, not for the unfolded definitions
 	all = append(all, unf...)
-	bg := e.backgroundAxioms(all, ob.Mode)
+	bg := e.backgroundAxioms(all, ob.Mode, typed)
 	all = append(all, bg...)
 	var sb strings.Builder
 	sb.WriteString("(set-option :produce-models true)\n(set-logic ALL)\n")
@@ -168,18 +249,145 @@ func (e *Engine) buildSMT(ob *Obligation) string {
 			fmt.Fprintf(&sb, "(declare-fun %s (%s) %s)\n", smtName(s.name), strings.Join(ds, " "), s.rng)
 		}
 	}
+	pr := newDagPrinter(all)
+	var body strings.Builder
 	for _, a := range bg {
-		fmt.Fprintf(&sb, "(assert %s)\n", a.Key())
+		fmt.Fprintf(&body, "(assert %s)\n", pr.print(a))
 	}
 	for _, a := range unf {
-		fmt.Fprintf(&sb, "(assert %s)\n", a.Key())
+		fmt.Fprintf(&body, "(assert %s)\n", pr.print(a))
 	}
 	for _, a := range asserts {
-		fmt.Fprintf(&sb, "(assert %s)\n", a.Key())
+		fmt.Fprintf(&body, "(assert %s)\n", pr.print(a))
 	}
-	fmt.Fprintf(&sb, "(assert %s)\n", goal.Key())
+	fmt.Fprintf(&body, "(assert %s)\n", pr.print(goal))
+	sb.WriteString(pr.defs.String())
+	sb.WriteString(body.String())
 	sb.WriteString("(check-sat)\n")
 	return sb.String()
+}
+
+// dagPrinter prints terms with shared ground subterms named once by define-fun, so that the
+// text stays proportional to the DAG size of the query.
+type dagPrinter struct {
+	count map[uint64]int
+	names map[uint64][]namedTerm
+	defs  strings.Builder
+	n     int
+	memo  map[*Term]string
+	bnd   map[*Term]bool
+}
+
+type namedTerm struct {
+	t    *Term
+	name string
+}
+
+func newDagPrinter(ts []*Term) *dagPrinter {
+	p := &dagPrinter{count: map[uint64]int{}, names: map[uint64][]namedTerm{}, memo: map[*Term]string{}, bnd: map[*Term]bool{}}
+	seen := map[*Term]bool{}
+	var rec func(t *Term)
+	rec = func(t *Term) {
+		p.count[t.hash()]++
+		if seen[t] {
+			return
+		}
+		seen[t] = true
+		for _, a := range t.Args {
+			rec(a)
+		}
+	}
+	for _, t := range ts {
+		rec(t)
+	}
+	return p
+}
+
+// hasBound: the term mentions a quantifier-bound variable (cannot be hoisted)
+func (p *dagPrinter) hasBound(t *Term) bool {
+	if v, ok := p.bnd[t]; ok {
+		return v
+	}
+	r := false
+	if t.Op == "var" && strings.HasPrefix(t.Name, "$b_") {
+		r = true
+	}
+	for _, a := range t.Args {
+		if p.hasBound(a) {
+			r = true
+		}
+	}
+	p.bnd[t] = r
+	return r
+}
+
+func (p *dagPrinter) print(t *Term) string {
+	if s, ok := p.memo[t]; ok {
+		return s
+	}
+	h := t.hash()
+	for _, nt := range p.names[h] {
+		if sameTerm(nt.t, t) {
+			p.memo[t] = nt.name
+			return nt.name
+		}
+	}
+	var s string
+	switch {
+	case len(t.Args) == 0:
+		s = t.Key()
+	case t.Op == "forall" || t.Op == "exists":
+		var sb strings.Builder
+		sb.WriteString("(" + t.Op + " (")
+		for _, b := range t.Bound {
+			fmt.Fprintf(&sb, "(%s %s)", b.Name, b.S)
+		}
+		sb.WriteString(") ")
+		pats := t.Args[1:]
+		if len(pats) > 0 {
+			sb.WriteString("(! ")
+		}
+		sb.WriteString(p.print(t.Args[0]))
+		for _, pt := range pats {
+			sb.WriteString(" :pattern (" + p.print(pt) + ")")
+		}
+		if len(pats) > 0 {
+			sb.WriteString(")")
+		}
+		sb.WriteString(")")
+		s = sb.String()
+	default:
+		var sb strings.Builder
+		switch t.Op {
+		case "app":
+			sb.WriteString("(" + t.Name)
+		case "extract":
+			fmt.Fprintf(&sb, "((_ extract %d %d)", t.I, t.J)
+		case "zext":
+			fmt.Fprintf(&sb, "((_ zero_extend %d)", t.I)
+		case "sext":
+			fmt.Fprintf(&sb, "((_ sign_extend %d)", t.I)
+		case "constarr":
+			fmt.Fprintf(&sb, "((as const %s)", t.S)
+		default:
+			sb.WriteString("(" + t.Op)
+		}
+		for _, a := range t.Args {
+			sb.WriteByte(' ')
+			sb.WriteString(p.print(a))
+		}
+		sb.WriteByte(')')
+		s = sb.String()
+	}
+	if p.count[h] >= 2 && len(s) > 24 && t.S != nil && !p.hasBound(t) && t.Op != "forall" && t.Op != "exists" && os.Getenv("GOVC_NODAG") == "" {
+		p.n++
+		name := fmt.Sprintf("$t%d", p.n)
+		fmt.Fprintf(&p.defs, "(define-fun %s () %s %s)\n", name, t.S, s)
+		p.names[h] = append(p.names[h], namedTerm{t, name})
+		s = name
+	}
+	p.memo[t] = s
+	return s
 }
 
 func smtName(n string) string { return n }
@@ -461,4 +669,38 @@ func relevant(asserts []*Term, goal *Term) []*Term {
 		}
 	}
 	return out
+}
+
+// isByteArrayTerm: the term denotes an array of bytes (by the origin of its root symbol)
+func isByteArrayTerm(t *Term) bool {
+	if t.S.K != SArray || t.S.Elem != IntSort {
+		return false
+	}
+	for {
+		switch t.Op {
+		case "store":
+			t = t.Args[0]
+			continue
+		case "ite":
+			return isByteArrayTerm(t.Args[1]) && isByteArrayTerm(t.Args[2])
+		case "select":
+			// element of a map of arrays: Mem_uint8_ (regions), *_arr leaves of strings
+			r := t.Args[0]
+			for r.Op == "store" {
+				r = r.Args[0]
+			}
+			if r.Op == "var" {
+				n := r.Name
+				return strings.HasPrefix(n, "Mem_uint8_") || strings.Contains(n, "_arr!") || strings.HasSuffix(n, "_arr")
+			}
+			return false
+		case "var":
+			n := t.Name
+			return strings.HasPrefix(n, "strlit_") || strings.HasPrefix(n, "cat!") || strings.HasPrefix(n, "cp!") || strings.HasPrefix(n, "hv!") ||
+				strings.HasPrefix(n, "cpm!") || strings.Contains(n, ".arr!") || strings.HasSuffix(n, ".arr")
+		case "constarr":
+			return true
+		}
+		return false
+	}
 }
